@@ -359,13 +359,18 @@ def neutral_pressure(rng, mixture, t_feed, comp, model, p1, p2):
 
 
 # --------------------------------------------------------------------------- conditions / programmes
-def gen_program(rng, t0, duration):
+def gen_program(rng, t0, duration, ndarray=0.2):
     kind = rng.choice(["polynomial", "polynomial", "exponential", "logarithmic"])
     tau = max(duration, 1e-12)
     if kind == "polynomial":
         s = rng.uniform(-25, 25) / tau
         q = rng.uniform(-8, 8) / tau**2
-        coeffs = [t0, s] if rng.random() < 0.5 else [t0, s, q]
+        start = t0 if rng.random() < 0.7 else t0 + rng.uniform(-20, 20)  # a programme need not start at the initial temperature
+        u = rng.random()
+        if u < 0.1:
+            coeffs = [start] if rng.random() < 0.5 else [start, 0.0]  # a constant programme
+        else:
+            coeffs = [start, s] if u < 0.55 else [start, s, q]
     elif kind == "exponential":
         # c0 * exp(c1 + c2 x)
         c0 = rng.uniform(50, 400)
@@ -378,6 +383,10 @@ def gen_program(rng, t0, duration):
         c1 = math.exp(t0 / c0)
         c2 = c1 * rng.uniform(-0.2, 0.25) / tau
         coeffs = [c0, c1, c2]
+    if rng.random() < ndarray:
+        import numpy
+
+        coeffs = numpy.array(coeffs, dtype=float)  # e.g. straight from numpy.polyfit
     return TemperatureProgram(coefficients=coeffs, type=kind)
 
 
@@ -387,7 +396,7 @@ def describe_conditions(c):
         "area": c.membrane_area, "T0": c.initial_feed_temperature, "m0": c.initial_feed_amount,
         "x0": describe_composition(c.initial_feed_composition),
         "Tp": c.permeate_temperature, "pp": c.permeate_pressure,
-        "program": None if tp is None else [tp.type, list(tp.coefficients)],
+        "program": None if tp is None else [tp.type, [float(v) for v in tp.coefficients]],
     }
 
 
@@ -419,6 +428,8 @@ def gen_curve_set(rng, mixture, n_curves=None, basis=None, n_points=None, units=
             temps = sorted(rng.uniform(293, 363) for _ in range(n_curves))
             if all(b - a >= 5 for a, b in zip(temps, temps[1:])):
                 break
+        if n_curves >= 2 and rng.random() < 0.12:
+            temps = [temps[0]] * n_curves  # replicate curves: several curves measured at one and the same temperature
     curves = []
     temps = list(temps)
     if rng.random() < 0.5:
